@@ -147,10 +147,13 @@ static size_t plan_size(const Plan &p) { size_t n = 0; for (auto &c : p.clients)
 
 static Plan shrink_plan(Plan p, Verdict &base, const std::string &scratch, int max_candidates, int &tried) {
     tried = 0;
+    // a hanging candidate costs its whole CPU budget: minimise hangs with a quarter of the budget and fewer candidates
+    bool hang = base.cls == "hang";
+    if (hang) max_candidates = std::min(max_candidates, 80);
     auto attempt = [&](const Plan &cand) -> bool {
         if (tried >= max_candidates) return false;
         tried++;
-        Verdict v = run_isolated(cand, scratch, false);
+        Verdict v = run_isolated(cand, scratch, false, hang ? std::max(1, cpu_budget(cand) / 4) : 0);
         if (same_failure(base, v)) { base = v; return true; }
         return false;
     };
